@@ -141,7 +141,7 @@ CLAIMS = {
          "data (no bytes / 128-bit / wrappers, keys serde_json accepts, text-distinct keys) converting then exporting equals a model of serde_json's own "
          "serializer. Tied to ser.rs / json.rs / serde_json by a generator with a hand-written Serialize impl that drives every Serializer method, "
          "unsupported keys of every kind included (all the compound kinds the key serializer refuses), plus every document of a JSON generator; the commutation law is also evaluated on the implementation with the real serde_json. "
-         "Data that reuses the private marker names of the Duration / Timestamp wrappers is outside the Coq data model (it carries no newtype names) and is held by a law on the implementation only: 55 kinds of "
+         "The other ways a host hands data over are held by laws on the implementation: Context::add_variable (root and inner scope) converts exactly like to_value, the From conversions into Value / Key give the value of the same shape, and the length a Serialize implementation announces never matters (finding F29, repaired). Data that reuses the private marker names of the Duration / Timestamp wrappers is outside the Coq data model (it carries no newtype names) and is held by a law on the implementation only: 55 kinds of "
          "data under either marker at three nesting positions give an error or exactly the wrapper's value, never a panic (finding F28, repaired)."),
  "C18": ("Theorems by induction on values: Value::json never panics, succeeds exactly on values without a function value or a duration beyond i64 nanoseconds "
          "and returns an error otherwise; the document is structurally the value (JExp: arrays, objects keyed by key text with insert-in-iteration-order, "
